@@ -98,6 +98,10 @@ type Sim struct {
 	hdr     tmproto.Header
 	tmp     string
 	Halted  string // non-empty once a hook panicked
+	// Pending: the genesis state of this application instance (InitChain, and on a re-import the typed
+	// InitGenesis calls) lives in the deliver state only; it is committed together with the first block
+	// (`start` and `reimport` both leave the instance in this state, the first `end` clears it)
+	Pending bool
 }
 
 // KeyFor returns the deterministic secp256k1 key with the given index.
@@ -280,6 +284,7 @@ func NewWithVPN(c *Config, vpn *vpntypes.GenesisState, swapGS *swaptypes.Genesis
 		return nil, initErr
 	}
 	s.Height = 0
+	s.Pending = true
 	s.hdr = tmproto.Header{ChainID: ChainID, Height: 1, Time: s.Time}
 	return s, nil
 }
@@ -297,8 +302,9 @@ func (s *Sim) Ctx() sdk.Context {
 
 // QueryCtx returns a context usable outside a block (reads committed state through the check state).
 func (s *Sim) QueryCtx() sdk.Context {
-	if s.InBlock || s.Height == 0 {
-		// before the first block the genesis state lives in the deliver state only
+	if s.InBlock || s.Pending {
+		// before the first block of an application instance (after `start` or `reimport`) the genesis
+		// state lives in the deliver state only; s.hdr is the InitChain header
 		return s.Ctx()
 	}
 	return s.App.NewContext(true, tmproto.Header{ChainID: ChainID, Height: s.Height, Time: s.Time}).WithEventManager(sdk.NewEventManager())
@@ -331,6 +337,7 @@ func (s *Sim) End() (events []abci.Event, halt string) {
 	res := s.App.EndBlock(abci.RequestEndBlock{Height: s.Height})
 	s.App.Commit()
 	s.InBlock = false
+	s.Pending = false
 	return res.Events, ""
 }
 
